@@ -408,6 +408,20 @@ func labelsMode(out, tracePath string, seed int64, nsets int) int {
 	for _, n := range namePool {
 		sets = append(sets, [][2]string{{n, "v"}})
 	}
+	// structural near-collisions: the same characters with the name/value boundary or the pair boundary somewhere else,
+	// swapped roles, repeated pairs (a fingerprint built from a concatenation cannot tell these apart)
+	for _, fam := range [][][][2]string{
+		{{{"job", "s3"}}, {{"jobs", "3"}}, {{"jo", "bs3"}}},
+		{{{"app", "le1"}}, {{"appl", "e1"}}},
+		{{{"a", "b"}, {"c", "d"}}, {{"a", "bc"}, {"d", "x"}}, {{"ab", ""}, {"c", "d"}}, {{"a", "d"}, {"c", "b"}}, {{"c", "b"}, {"a", "d"}}},
+		{{{"x", "y"}}, {{"y", "x"}}, {{"xy", ""}}, {{"x", "y"}, {"x2", "y"}}},
+		{{{"k", "v1"}, {"k2", "v"}}, {{"k", "v"}, {"k2", "v1"}}, {{"k", "v1k2v"}}},
+	} {
+		for _, ps := range fam {
+			sets = append(sets, ps)
+		}
+	}
+	nsets += 16
 	for len(sets) < nsets {
 		k := 2 + rnd.Intn(2)
 		var ps [][2]string
